@@ -20,6 +20,35 @@ Proof.
   { pose proof (Nat.div_mod (c * n) 2 ltac:(lia)). pose proof (Nat.mod_upper_bound (c * n) 2 ltac:(lia)). nia. }
   nia.
 Qed.
+
+(* the number of one-sided entries the classes keep for real data: NFFT/2+1 (NFFT even), (NFFT+1)/2 (NFFT odd) *)
+Definition keep (n : nat) : nat := if Nat.even n then (n / 2 + 1)%nat else ((n + 1) / 2)%nat.
+Lemma keep_spec n : (1 <= n)%nat -> exists h, keep n = (h + 1)%nat /\ (n = 2 * h \/ n = 2 * h + 1)%nat /\ h = (n / 2)%nat /\ (keep n <= n)%nat.
+Proof.
+  intros Hn. unfold keep. exists (n / 2)%nat.
+  pose proof (Nat.div_mod n 2 ltac:(lia)) as E. pose proof (Nat.mod_upper_bound n 2 ltac:(lia)) as B.
+  destruct (Nat.even n) eqn:He.
+  - apply Nat.even_spec in He. destruct He as [q ->].
+    rewrite (Nat.mul_comm 2 q), Nat.div_mul by lia. repeat split; lia.
+  - assert (Ho : Nat.odd n = true) by (rewrite <- Nat.negb_even, He; reflexivity).
+    apply Nat.odd_spec in Ho. destruct Ho as [q ->].
+    replace (2 * q + 1 + 1)%nat with ((q + 1) * 2)%nat by lia. rewrite Nat.div_mul by lia.
+    replace ((2 * q + 1) / 2)%nat with q.
+    + repeat split; lia.
+    + apply (Nat.div_unique (2 * q + 1) 2 q 1); lia.
+Qed.
+Lemma keep_grid (n c b : nat) : (0 < c)%nat -> (1 <= n)%nat -> (b < keep n)%nat -> (c * b < keep (c * n))%nat.
+Proof.
+  intros Hc Hn Hb.
+  destruct (keep_spec n Hn) as (h & Kn & Pn & _ & _).
+  destruct (keep_spec (c * n) ltac:(nia)) as (H & Kc & Pc & _ & _).
+  rewrite Kc. rewrite Kn in Hb.
+  assert (Hq : (c * b <= c * h)%nat) by (apply Nat.mul_le_mono_l; lia).
+  assert (Hp : (c * n = 2 * (c * h) \/ c * n = 2 * (c * h) + c)%nat) by (destruct Pn as [->| ->]; [left|right]; ring).
+  generalize dependent (c * b)%nat. generalize dependent (c * h)%nat. generalize dependent (c * n)%nat. intros; lia.
+Qed.
+Lemma keep_le n : (1 <= n)%nat -> (keep n <= n)%nat.
+Proof. intros Hn. destruct (keep_spec n Hn) as (h & _ & _ & _ & H). exact H. Qed.
 End GridIndex.
 
 Section GridFourier.
